@@ -6,6 +6,7 @@
 From AV Require Import Lib.Base Gen.Consts.
 From AV Require Import Files.PathBuf Files.PathBufSpec Files.PathBufProofs.
 From AV Require Import Files.Range Files.Named Files.ChunkedRead Files.RangeProofs.
+From AV Require Import Files.Service Files.ServiceProofs.
 
 (* ---------------------------------------------------------------- (1) no traversal ------------- *)
 
@@ -38,6 +39,54 @@ Proof.
   intros v w h path root segs H. destruct (C16_no_traversal v w h path segs H) as (N & _).
   split; [apply join_under_root; exact N|]. exists segs. split; [exact N|apply join_under_root; exact N].
 Qed.
+
+(* The path the service ACTUALLY opens (FilesService::call with or without try_compressed, with or
+   without an index file): for every file-system content [fs] in which the configured directory is a
+   directory, every request path and every Accept-Encoding negotiation order, whatever is opened --
+   the requested file, the index file of a directory, or a pre-compressed sibling
+   `<file_name>.br|.gz|.zst` built by find_compressed -- is the configured directory followed by
+   normal segments.  (The sibling construction replaces the LAST component; it is never applied to
+   the root directory itself because of the `!path.is_dir()` guard: that is where [fs root = KDir]
+   is used.) *)
+Theorem C16_opened_path_under_root :
+  forall (valid_utf8 : bytes -> bool) (windows hidden : bool) (fs : list component -> fkind)
+         (try_compressed : bool) (index : option bytes) (root path : bytes) (segs : list bytes)
+         (neg : list N) (opened : list component) (enc : option N),
+  fs (components root) = KDir ->
+  match index with Some ix => normal_seg ix | None => True end ->
+  parse_path valid_utf8 windows hidden path = Val (POk segs) ->
+  call fs try_compressed index root segs neg = Served opened enc ->
+  exists segs', Forall normal_seg segs' /\ opened = components root ++ map CNormal segs'.
+Proof.
+  intros v w h fs tc index root path segs neg opened enc Hroot Hix HP HC.
+  destruct (C16_no_traversal v w h path segs HP) as (N & _).
+  exact (call_under_root fs root tc index segs neg opened enc Hroot N Hix HC).
+Qed.
+
+(* why the guard matters: applied to the root directory itself, the sibling construction yields
+   <parent of root>/<root name><ext>, which is NOT under the root *)
+Theorem C16_sibling_of_root_is_outside :
+  forall (root : bytes) (parent : list component) (name x : bytes),
+  components root = parent ++ [CNormal name] ->
+  set_file_name (components root) (name ++ x) = parent ++ [CNormal (name ++ x)].
+Proof. intros root parent name x H. exact (sibling_of_root_is_outside root parent name x H). Qed.
+
+Example C16_example_service :
+  (* fs: /r is a directory holding a, a.gz and the directory d; /r.gz exists next to the root *)
+  let fs := fun cs : list component =>
+    match cs with
+    | [CRoot; CNormal [114]] => KDir
+    | [CRoot; CNormal [114]; CNormal [100]] => KDir
+    | [CRoot; CNormal [114]; CNormal [97]] => KFile
+    | [CRoot; CNormal [114]; CNormal [97; 46; 103; 122]] => KFile
+    | [CRoot; CNormal [114; 46; 103; 122]] => KFile
+    | _ => KNone
+    end in
+  (* GET /a with gzip acceptable -> a.gz inside the root; GET / -> nothing (not /r.gz) *)
+  call fs true None [47; 114] [[97]] [1] = Served [CRoot; CNormal [114]; CNormal [97; 46; 103; 122]] (Some 1) /\
+  call fs true None [47; 114] [] [1] = Miss /\
+  call fs true (Some [97]) [47; 114] [] [1] = Served [CRoot; CNormal [114]; CNormal [97; 46; 103; 122]] (Some 1).
+Proof. vm_compute. repeat split. Qed.
 
 (* Neither assert! of parse_path fires and `segment_count -= 1` never underflows: no input panics. *)
 Theorem C16_asserts_hold :
@@ -141,51 +190,59 @@ Proof. vm_compute. repeat split. Qed.
 
 (* ---------------------------------------------------------------- (3) body = slice ------------- *)
 
-(* For EVERY read-size schedule (how many bytes each read of the file returns), every file content
-   and every on-disk length: if the stream completes, the chunks concatenate to exactly
-   file[offset .. offset+size), that window exists on disk, and no chunk is empty or larger than the
-   chunk size. (A stream over a file shorter than announced therefore never completes normally:
-   it ends with UnexpectedEof.) *)
+(* For EVERY read-size schedule (how many bytes each read of the file returns, and for how many polls
+   an asynchronous read stays pending), BOTH read modes (synchronous inline read below
+   read_mode_threshold, web::block above), every file content and every on-disk length: if the stream
+   completes, the chunks concatenate to exactly file[offset .. offset+size), that window exists on
+   disk, and no chunk is empty or larger than the chunk size. (A stream over a file shorter than
+   announced therefore never completes normally: it ends with UnexpectedEof.) The proof goes through
+   the offset/counter bookkeeping: each chunk is read at the offset reached by the previous ones. *)
 Theorem C16_body_is_slice :
-  forall (A : Type) (file : list A) (flen : N) (sched : list N) (size offset : N) (evs : list ev),
-  read_loop FILES_CHUNK_SIZE flen sched size offset 0 = Val evs ->
+  forall (A : Type) (file : list A) (flen : N) (mode : read_mode) (sched : list (nat * N))
+         (size offset : N) (evs : list ev),
+  read_loop FILES_CHUNK_SIZE flen mode sched size offset 0 = Val evs ->
   Forall (fun e => match e with EChunk _ n => 0 < n /\ n <= FILES_CHUNK_SIZE | _ => True end) evs /\
   (finished evs = true ->
      body_of file evs = slice file offset size /\ (0 < size -> offset + size <= flen)).
 Proof.
-  intros A file flen sched size offset evs H.
-  destruct (read_loop_exact FILES_CHUNK_SIZE A file flen sched size offset 0 evs ltac:(lia) H) as (F & B).
+  intros A file flen mode sched size offset evs H.
+  destruct (read_loop_exact FILES_CHUNK_SIZE A file flen mode sched size offset 0 evs ltac:(lia) H) as (F & B).
   split; [exact F|]. intro Fin. destruct (B Fin) as (B1 & B2). rewrite N.sub_0_r in *.
   split; [exact B1|]. intro P. apply B2. exact P.
 Qed.
 
 (* Progress: when the window exists on disk and every read returns at least one byte, the stream
-   completes (no error, no panic) within `size` reads. *)
+   completes (no error, no panic) within `size` reads, in both modes; a synchronous stream never
+   yields Pending. *)
 Theorem C16_body_completes :
-  forall (flen : N) (sched : list N) (size offset : N),
+  forall (flen : N) (mode : read_mode) (sched : list (nat * N)) (size offset : N),
   offset + size <= flen -> flen <= u64_max ->
-  Forall (fun k => 1 <= k) sched -> size <= N.of_nat (length sched) ->
-  exists evs, read_loop FILES_CHUNK_SIZE flen sched size offset 0 = Val evs /\ finished evs = true.
+  Forall (fun pk => 1 <= snd pk) sched -> size <= N.of_nat (length sched) ->
+  exists evs, read_loop FILES_CHUNK_SIZE flen mode sched size offset 0 = Val evs /\ finished evs = true /\
+    (mode = Sync -> Forall (fun e => match e with EWait _ => False | _ => True end) evs).
 Proof.
-  intros flen sched size offset Hw Hf HF Hl.
-  apply (read_loop_completes FILES_CHUNK_SIZE flen sched size offset 0); try assumption;
-    unfold FILES_CHUNK_SIZE, u64_max in *; lia.
+  intros flen mode sched size offset Hw Hf HF Hl.
+  destruct (read_loop_completes FILES_CHUNK_SIZE flen mode sched size offset 0) as (evs & E & Fin);
+    try assumption; try (unfold FILES_CHUNK_SIZE, u64_max in *; lia).
+  exists evs. split; [exact E|]. split; [exact Fin|].
+  intro M. exact (sync_never_waits FILES_CHUNK_SIZE flen mode M sched size offset 0 evs E).
 Qed.
 
 (* End to end for a 206/200: the decision and the reader compose — the body streamed for the
    response is exactly the bytes the Content-Range announces. *)
 Theorem C16_response_body_exact :
   forall (A : Type) (file : list A) (range_hdr : option bytes) (c : cond) (r : resp)
-         (offset length : N) (sched : list N) (evs : list ev),
+         (offset length threshold : N) (sched : list (nat * N)) (evs : list ev),
   lenN file <= u64_max ->
   into_response true (lenN file) range_hdr c = Val r -> body r = Some (offset, length) ->
-  read_loop FILES_CHUNK_SIZE (lenN file) sched length offset 0 = Val evs -> finished evs = true ->
+  read_loop FILES_CHUNK_SIZE (lenN file) (mode_of length threshold) sched length offset 0 = Val evs ->
+  finished evs = true ->
   body_of file evs = slice file offset length /\ offset + length <= lenN file /\
   (status r = 206 -> content_range r = Some (CRBytes offset (offset + length - 1) (lenN file))).
 Proof.
-  intros A file rh c r offset length sched evs Hs E B H Fin.
+  intros A file rh c r offset length thr sched evs Hs E B H Fin.
   destruct (C16_range_exact (lenN file) rh c r Hs E) as (P206 & _ & _ & _ & Pin).
-  destruct (C16_body_is_slice A file (lenN file) sched length offset evs H) as (_ & S).
+  destruct (C16_body_is_slice A file (lenN file) (mode_of length thr) sched length offset evs H) as (_ & S).
   destruct (S Fin) as (S1 & _). split; [exact S1|]. split; [apply Pin; exact B|].
   intro St. destruct (P206 St) as (o & l & B' & _ & _ & CR & _). rewrite B in B'. inversion B'; subst. exact CR.
 Qed.
@@ -193,10 +250,10 @@ Qed.
 Example C16_example_body :
   let file := [10; 11; 12; 13; 14; 15; 16; 17; 18; 19] in
   (* reads returning 2, 1 and then "as much as possible" bytes; chunk size 65536 *)
-  match read_loop FILES_CHUNK_SIZE 10 [2; 1; 100] 6 3 0 with
+  match read_loop FILES_CHUNK_SIZE 10 Async [(1%nat, 2); (0%nat, 1); (3%nat, 100)] 6 3 0 with
   | Val evs => finished evs = true /\ body_of file evs = [13; 14; 15; 16; 17; 18]
   | Panic => False
   end /\
   (* the file was truncated to 5 bytes after open: UnexpectedEof after the bytes that exist *)
-  read_loop FILES_CHUNK_SIZE 5 [100; 100; 100] 6 3 0 = Val [EChunk 3 2; EErr].
+  read_loop FILES_CHUNK_SIZE 5 Sync [(7%nat, 100); (7%nat, 100); (7%nat, 100)] 6 3 0 = Val [EChunk 3 2; EErr].
 Proof. vm_compute. repeat split. Qed.
